@@ -64,6 +64,22 @@ CHECKS["C09"] = dict(
     note=_EXEC_NOTE, technique="TLA+ reference executor model-checked with TLC; TLC-generated vectors replayed into the Go code",
     design="3/C09")
 
+CHECKS["C10"] = dict(
+    text="spec/props/C10.tla: include/embed configurations as data (mode plain/with/only/with+only, call site top/loop/block/macro, "
+         "targets that print variables, set colliding names, extend another template or define blocks, embed overrides with and "
+         "without parent(), host defining a block of the same name, construct used twice). Expected output is defined by cases on "
+         "the data (context = visible scope + with-hash, host unchanged, chain = embed blocks + target chain); TLC checks the "
+         "executor against it and prints vectors; replay compares the rendered output.",
+    note=_EXEC_NOTE, technique="TLA+ reference executor model-checked with TLC; TLC-generated vectors replayed into the Go code",
+    design="3/C10")
+CHECKS["C11"] = dict(
+    text="spec/props/C11.tla: macro configurations (4 call forms x 0..4 parameters x 0..6 arguments x 5 uses of the result x 3 "
+         "nestings, macro calling macro, unknown macro). The value of a call is defined declaratively (positional binding, "
+         "missing empty, surplus ignored); TLC checks PositionalBinding, ThreeFormsAgree, NameInMacro on the executor and prints "
+         "vectors; replay compares output, error presence and the template name callbacks see.",
+    note=_EXEC_NOTE, technique="TLA+ reference executor model-checked with TLC; TLC-generated vectors replayed into the Go code",
+    design="3/C11")
+
 NOT_YET = {}
 
 props = [json.loads(l)["id"] for l in open(os.path.join(VERIF, "properties.jsonl"))]
